@@ -14,9 +14,9 @@
 (***************************************************************************)
 EXTENDS Naturals, Sequences, TLC
 CONSTANTS MaxLen, DelOnAllPaths, LiveDecOnInv, FullGetoptReset
-Ops == 0..14
+Ops == 0..15
 IsEnc(o) == o \in {0, 1, 2}
-IsDecOK(o) == o \in {3, 14}
+IsDecOK(o) == o \in {3, 14, 15}
 IsDecFail(o) == o \in {4, 5, 6, 7}
 IsVer(o) == o \in {8, 9}
 IsParse(o) == o \in {10, 11, 12, 13}
